@@ -254,7 +254,7 @@ class C10(Check):
             "{a,b,Top,Bottom} (3 280) and a depth-3 slice, printed minimally and fully parenthesised, in five "
             "whitespace/comment layouts; (iii) every one-conditional base over the 256 conditionals of C2 and a slice of "
             "three-conditional bases in 8 file layouts (CRLF, blank lines, comments, no trailing newline, one line, tabs) "
-            "through parse_belief_base (as strings and as files on disk), and the C2 conditionals as query lists / query files through parse_queries; (iv) every "
+            "through parse_belief_base (as strings and as files on disk), and the C2 conditionals as query lists / query files through parse_queries; (iii') parse, damage the returned objects, parse the same text again; (iv) every "
             "single-token deletion, duplication, substitution (15 tokens) and insertion (5 tokens) and every appended "
             "token of three well-formed files and two query lists. Oracle: independent recursive-descent recogniser "
             "(vf/refparse.py): accepted => in the reference language with the same truth table / signature / order / keys "
@@ -282,6 +282,7 @@ class C10(Check):
         for i in range(0, 256, 16):
             out.append(("bb1", i, i + 16))
         out.append(("bb3",))
+        out.append(("reparse",))
         for i in range(len(MUT_FILES)):
             for part in range(4):
                 out.append(("mutf", i, part))
@@ -328,6 +329,29 @@ class C10(Check):
                 judge_bb(res, self.id, forms.ctxt(cnd) + ",\n" + forms.ctxt(cnd, full=True) + "\n", "C2-queryfile", what="q", via_file=True)
                 judge_bb(res, self.id, forms.ctxt(cnd), "C2-query", what="q")
                 judge_bb(res, self.id, forms.ctxt(cnd, full=True) + ",\n" + forms.ctxt(cnd), "C2-query2", what="q")
+        elif kind == "reparse":
+            # history: parse a text, damage the returned objects, parse the SAME text again - the second result must be fresh
+            from parser.Wrappers import parse_belief_base, parse_queries
+
+            cs = scopes.L3PLUS
+            for i in range(0, 24):
+                conds = [cs[i], cs[(i * 5 + 7) % len(cs)], cs[(i * 3 + 11) % len(cs)]]
+                text = bb_layout(scopes.SIG3, conds, i % NLAYOUT, name="K%d" % i)
+                qtext = ",".join(forms.ctxt(x) for x in conds)
+                for what, txt in (("bb", text), ("q", qtext)):
+                    res.evals += 1
+                    try:
+                        first = parse_belief_base(txt) if what == "bb" else parse_queries(txt)
+                        del first.conditionals[2]
+                        first.conditionals[1].index = 99
+                        if what == "bb":
+                            first.signature.append("zz")
+                        first.name = "damaged"
+                    except Exception as e:  # noqa: BLE001
+                        res.violation(self.id, "bb-node", {"text": txt, "family": "reparse", "config": "parse_belief_base" if what == "bb" else "parse_queries"},
+                                      "first parse", drive.exc_obs(e))
+                        continue
+                    judge_bb(res, self.id, txt, "reparse-after-mutating-the-first-result", what=what)
         elif kind == "bb3":
             cs = scopes.L3PLUS
             for i in range(0, len(cs) - 2, 1):
